@@ -68,6 +68,8 @@ package http
 //@   before call net/http.ResponseWriter.WriteHeader assert complete-only-at-the-end: arg1 == 200 ==> called(sts.PayloadDecoder.Next) && lastret(sts.PayloadDecoder.Next, 1)
 //@   before call net/http.ResponseWriter.WriteHeader assert partial-answer-after-a-failed-part: arg1 == 206 ==> called(sts.GateKeeper.Receive) && lastret(sts.GateKeeper.Receive, 0) != nil && called((net/http.Header).Add) && lastarg((net/http.Header).Add, 1) == HeaderPartCount && lastarg((net/http.Header).Add, 2) == itoa(index)
 //@   loop 0 invariant 0 <= index
+//@   before call (net/http.Header).Add assert one-part-count-per-answer: arg1 == HeaderPartCount && arg2 == itoa(index) && ncalls((net/http.Header).Add) == 0 && !called((net/http.Header).Set)
+//@   forbid call (net/http.Header).Set label one-part-count-per-answer
 //@   loop 0 backedge assert partcount-is-receive-count: index == athead(index) + 1 && called(sts.GateKeeper.Receive) && lastret(sts.GateKeeper.Receive, 0) == nil && ncalls(sts.GateKeeper.Receive) == 1
 
 //@ func (*Server).routeDataRecovery
